@@ -1061,7 +1061,8 @@ class Repo:
                     return {'<function not in the confirmed tree>'}
                 if f is None or base is None:
                     return set()
-                new = func_vocabulary(f.node) - set(base)
+                # value-preserving conversions are no new operation for a rule about values (the term layer writes np.asarray(x) as x)
+                new = func_vocabulary(f.node) - set(base) - {'.asarray', '.asanyarray'}
                 try:
                     from .baseline import SKELETON
                     sk = SKELETON.get(mn, {}).get(qualname)
